@@ -41,10 +41,12 @@ MANIFEST = {
 }
 VERIF = os.path.dirname(os.path.dirname(os.path.dirname(os.path.abspath(__file__))))
 SEEDS = {"quick": ["0", "7"], "thorough": ["0", "1", "2", "3", "7", "11", "19", "42"]}
+# single-read histories of every read of the menu are repeated under many more hash seeds (cheap: one process per seed)
+SWEEP = {"quick": [str(i) for i in range(1, 17)], "thorough": [str(i) for i in range(1, 129)]}
 
 
 def bounds(tier):
-    return {"depth": 3, "hash_seeds": SEEDS[tier], "documents": {k: len(v) for k, v in doc_pool().items()}}
+    return {"depth": 3, "hash_seeds": SEEDS[tier], "hash_seeds_for_single_reads": len(SWEEP[tier]), "documents": {k: len(v) for k, v in doc_pool().items()}}
 
 
 _pool = None
@@ -77,11 +79,11 @@ def doc_pool():
         docs.dfxp_doc([("en", [('begin="1s" end="2s" region="ra"', "same region markup"), ('begin="3s" end="4s"', "no region")])], head='<styling><style xml:id="rs" tts:origin="50% 60%" tts:textAlign="right"/></styling><layout><region xml:id="ra" style="rs"/></layout>', tt_attrs=' tts:extent="640px 480px"'),
     ]
     p["sami"] = [
-        docs.sami_doc([(1000, [("en-US", "one"), ("fr-FR", "un")]), (2000, [("en-US", "&nbsp;")]), (2500, [("fr-FR", "deux<br/><i>d</i>")]), (3000, [("en-US", "three")])], ["en-US", "fr-FR"], extra_css=".ENCC { margin-left: 2%; text-align: center; }"),
+        docs.sami_doc([(1000, [("en-US", "one"), ("fr-FR", "un")]), (2000, [("en-US", "&nbsp;")]), (2500, [("fr-FR", "deux<br/><i>d</i>")]), (3000, [("en-US", "three")])], ["en-US", "fr-FR"], class_css={"en-US": "margin-left: 2%; text-align: center; "}),
         docs.sami_doc([(1000, [("de-DE", "eins")]), (1500, [("es-ES", "uno"), ("en-US", "one")]), (2000, [("de-DE", "zwei")])], ["de-DE", "es-ES", "en-US"]),
         "<SAMI><BODY><SYNC><P class=ENCC>no start: reader raises</P></SYNC></BODY></SAMI>",
         # two classes declare the same language with different layouts (which one wins must not depend on hashing)
-        docs.sami_doc([(1000, [("en-US", "one")]), (2000, [("en-US", "two")])], ["en-US"], extra_css=".ENCC { margin-left: 2%; text-align: center; }\n.ENALT { Name: alt; lang: en-US; margin-left: 9%; text-align: right; }\n.ENTHIRD { Name: third; lang: en-US; margin-top: 7%; text-align: left; }"),
+        docs.sami_doc([(1000, [("en-US", "one")]), (2000, [("en-US", "two")])], ["en-US"], class_css={"en-US": "margin-left: 2%; text-align: center; "}, extra_css=".ENALT { Name: alt; lang: en-US; margin-left: 9%; text-align: right; }\n.ENTHIRD { Name: third; lang: en-US; margin-top: 7%; text-align: left; }"),
     ]
     p["scc"] = [
         c05.program_doc([c05.wrap(c05.FIRST[3]), c05.wrap(c05.FIRST[7])], True),
@@ -442,6 +444,9 @@ def shards(tier, seed):
     for hs in SEEDS[tier]:
         for i in range(len(first)):
             sh.append({"first": i, "depth": bounds(tier)["depth"] if (hs == "0" or tier == "thorough") else 2, "reduced": tier == "quick" or hs != "0", "_env": {"PYTHONHASHSEED": hs}, "pristine": table})
+    for hs in SWEEP[tier]:
+        if hs not in SEEDS[tier]:
+            sh.append({"sweep": True, "_env": {"PYTHONHASHSEED": hs}, "pristine": table})
     return sh
 
 
@@ -455,8 +460,10 @@ def run_shard(d):
     for fmt, di, optjs, r in d.get("pristine", []):
         _pristine_cache[(fmt, di, optjs)] = r
     w = World()
-    first = w.enabled()[d["first"]]
-    explore(acc, [first], d["depth"], states, d.get("reduced", False))
+    if d.get("sweep"):
+        explore(acc, [o for o in w.enabled() if o[0] == "read"], 1, states)
+    else:
+        explore(acc, [w.enabled()[d["first"]]], d["depth"], states, d.get("reduced", False))
     res = acc.result()
     res["extra"] = {"state_hashes": sorted(states)}
     return res
